@@ -279,13 +279,32 @@ class ChildrenList(list):
         :type items: list of :py:class:`psyclone.psyir.nodes.Node`
 
         '''
+        items = list(items)
         for index, item in enumerate(items):
             self._validate_item(len(self) + index, item)
             self._check_is_orphan(item)
+            if any(item is previous for previous in items[:index]):
+                raise GenerationError(
+                    f"Item '{item.coloured_name(False)}' can't be added more "
+                    f"than once as child of "
+                    f"'{self._node_reference.coloured_name(False)}'.")
         super().extend(items)
         for item in items:
             self._set_parent_link(item)
         self._node_reference.update_signal()
+
+    def __iadd__(self, items):
+        ''' Extends list in-place addition with children node validation.
+
+        :param items: list of items to be appened to the list.
+        :type items: list of :py:class:`psyclone.psyir.nodes.Node`
+
+        :returns: this list.
+        :rtype: :py:class:`psyclone.psyir.nodes.node.ChildrenList`
+
+        '''
+        self.extend(items)
+        return self
 
     # Methods below don't insert elements but have the potential to displace
     # or change the order of the items in-place.
@@ -357,6 +376,16 @@ class ChildrenList(list):
         super().clear()
         # Signal that the tree has changed.
         self._node_reference.update_signal()
+
+    def __imul__(self, value):
+        '''Override the default in-place repetition as this is not supported
+        for a ChildrenList.
+
+        :raises NotImplementedError: a Node can not be more than once in \
+                                     the Children of a Node.
+        '''
+        raise NotImplementedError("Repeating the Children of a Node is not "
+                                  "supported.")
 
     def sort(self, reverse=False, key=None):
         '''Override the default sort() implementation as this is not supported
@@ -973,14 +1002,27 @@ class Node():
 
         :raises TypeError: if the given children parameter is not a list.
         '''
-        if isinstance(my_children, list):
-            self.pop_all_children()  # First remove existing children if any
-            self._children = ChildrenList(self, self._validate_child,
-                                          self._children_valid_format)
-            self._children.extend(my_children)
-        else:
+        if not isinstance(my_children, list):
             raise TypeError("The 'my_children' parameter of the node.children"
                             " setter must be a list.")
+        if my_children is self._children:
+            return  # e.g. the re-assignment done by 'node.children += [...]'
+        new_children = list(my_children)
+        # Validate everything before modifying the tree. (The existing
+        # children of this node are orphaned before being re-inserted.)
+        # pylint: disable=protected-access
+        for index, item in enumerate(new_children):
+            self._children._validate_item(index, item)
+            if item.parent is not self:
+                self._children._check_is_orphan(item)
+            if any(item is previous for previous in new_children[:index]):
+                raise GenerationError(
+                    f"Item '{item.coloured_name(False)}' can't be added more "
+                    f"than once as child of '{self.coloured_name(False)}'.")
+        self.pop_all_children()  # First remove existing children if any
+        self._children = ChildrenList(self, self._validate_child,
+                                      self._children_valid_format)
+        self._children.extend(new_children)
 
     @property
     def parent(self):
